@@ -39,6 +39,33 @@ static void build_table()
 			add("Vector::operator[]", "n=" + std::to_string(n) + ",i=" + std::to_string(idx), s, [=]() { Vector v(n, 1.5); return v[idx]; });
 			add("Vector::operator[]const", "n=" + std::to_string(n) + ",i=" + std::to_string(idx), s, [=]() { const Vector v(n, 1.5); return v[idx]; });
 		}
+	// objects without components (made in four ways): every index lies outside
+	for(int how = 0; how < 4; how++)
+		for(unsigned idx : {0u, 1u, 2u, UINT_MAX})
+		{
+			auto make = [how]() { Vector v(3, 7.0); if(how == 0) v = Vector(0u); else if(how == 1) v = Vector(std::vector<double>{}); else if(how == 2) v.Resize(0); else v.Assign(0, 1.0); return v; };
+			std::string l = std::string("empty(") + (how == 0 ? "Vector(0)" : how == 1 ? "Vector({})" : how == 2 ? "Resize(0)" : "Assign(0,x)") + "),i=" + std::to_string(idx);
+			add("Vector::operator[]", l, REJECT, [=]() { Vector v = make(); return v[idx]; });
+			add("Vector::operator[]const", l, REJECT, [=]() { const Vector v = make(); return v[idx]; });
+			add("Vector::operator[]write", l, REJECT, [=]() { Vector v = make(); v[idx] = 2.0; return (double)v.Size(); });
+			if(how < 2) add("Vector::operator[]in_place", l, REJECT, [=]() { Vector v(3, 7.0); if(how == 0) v.Resize(0); else v.Assign(0, 1.0); return v[idx]; });
+		}
+	for(int how = 0; how < 4; how++)
+		for(unsigned idx : {0u, 1u, UINT_MAX})
+		{
+			auto make = [how]() { if(how == 0) return Matrix(0u, 3u); if(how == 1) return Matrix(0u, 0u); if(how == 2) return Matrix(std::vector<std::vector<double>>{}); Matrix M(1, 3, 2.0); M.Delete_Row(0); return M; };
+			std::string l = std::string("empty(") + (how == 0 ? "Matrix(0,3)" : how == 1 ? "Matrix(0,0)" : how == 2 ? "Matrix({})" : "Delete_Row of the only row") + "),i=" + std::to_string(idx);
+			add("Matrix::operator[]", l, REJECT, [=]() { Matrix M = make(); return (double)M[idx].size(); });
+			add("Matrix::operator[]const", l, REJECT, [=]() { const Matrix M = make(); return (double)M[idx].size(); });
+			add("Matrix::Return_Row", l, REJECT, [=]() { Matrix M = make(); return (double)M.Return_Row(idx).Size(); });
+			add("Matrix::Delete_Row", l, REJECT, [=]() { Matrix M = make(); M.Delete_Row(idx); return (double)M.Rows(); });
+		}
+	for(unsigned idx : {0u, 1u, UINT_MAX})
+	{
+		std::string l = "empty(Matrix(3,0)),j=" + std::to_string(idx);
+		add("Matrix::Return_Column", l, REJECT, [=]() { Matrix M(3u, 0u); return (double)M.Return_Column(idx).Size(); });
+		add("Matrix::Delete_Column", l, REJECT, [=]() { Matrix M(3u, 0u); M.Delete_Column(idx); return (double)M.Columns(); });
+	}
 	for(unsigned a : {1u, 2u, 3u, 4u})
 		for(unsigned b : {1u, 2u, 3u, 4u})
 		{
@@ -136,6 +163,14 @@ static void build_table()
 	add("Interpolation(table)", "row_with_1_column", REJECT, []() { Interpolation I(VV{{0, 1}, {1}, {2, 3}}); return I(1.0); });
 	add("Interpolation_2D(lists)", "values_too_few_rows", REJECT, []() { Interpolation_2D I(V{0, 1, 2}, V{0, 1, 2}, VV(2, V(3, 1.0))); return I(1.0, 1.0); });
 	add("Interpolation_2D(lists)", "values_ragged_row", REJECT, []() { VV f(3, V(3, 1.0)); f[1].pop_back(); Interpolation_2D I(V{0, 1, 2}, V{0, 1, 2}, f); return I(1.0, 1.0); });
+	for(int row : {0, 2})
+		for(int how = 0; how < 3; how++)
+		{
+			std::string l = std::string("values_ragged_row=") + std::to_string(row) + (how == 0 ? ",too_short" : how == 1 ? ",too_long" : ",empty");
+			add("Interpolation_2D(lists)", l, REJECT, [=]() { VV f(3, V(3, 1.0)); if(how == 0) f[row].pop_back(); else if(how == 1) f[row].push_back(2.0); else f[row].clear(); Interpolation_2D I(V{0, 1, 2}, V{0, 1, 2}, f); return I(1.0, 1.0); });
+		}
+	add("Interpolation_2D(lists)", "values_too_many_rows", REJECT, []() { Interpolation_2D I(V{0, 1, 2}, V{0, 1, 2}, VV(4, V(3, 1.0))); return I(1.0, 1.0); });
+	add("Interpolation_2D(lists)", "values_no_rows", REJECT, []() { Interpolation_2D I(V{0, 1, 2}, V{0, 1, 2}, VV{}); return I(1.0, 1.0); });
 	add("Interpolation_2D(lists)", "values_too_many_columns", REJECT, []() { Interpolation_2D I(V{0, 1, 2}, V{0, 1, 2}, VV(3, V(4, 1.0))); return I(1.0, 1.0); });
 	add("Interpolation_2D(lists)", "x_not_increasing", REJECT, []() { Interpolation_2D I(V{0, 1, 1}, V{0, 1, 2}, VV(3, V(3, 1.0))); return I(0.5, 1.0); });
 	add("Interpolation_2D(table)", "valid_3x3", ACCEPT, []() { VV t; for(int i = 0; i < 3; i++) for(int j = 0; j < 3; j++) t.push_back({(double)i, (double)j, (double)(i + j)}); Interpolation_2D I(t); return I(1.0, 1.0); });
